@@ -134,6 +134,26 @@ func init() {
 		didDict[d] = didtypes.NewDID(pub[:])
 		didRev[didDict[d]] = d
 	}
+	// "dc": a hostile twin of d1 — the same identifier with the case of one letter flipped (still valid base58)
+	d1 := []byte(didDict["d1"])
+	for i := len("did:panacea:"); i < len(d1); i++ {
+		ch := d1[i]
+		var o byte
+		switch {
+		case ch >= 'a' && ch <= 'z':
+			o = ch - 32
+		case ch >= 'A' && ch <= 'Z':
+			o = ch + 32
+		default:
+			continue
+		}
+		if strings.IndexByte(didtypes.Base58Charset, o) >= 0 {
+			d1[i] = o
+			break
+		}
+	}
+	didDict["dc"] = string(d1)
+	didRev[string(d1)] = "dc"
 }
 
 func (c *Chain) bech(name string) string {
@@ -165,6 +185,9 @@ func concDoc(a M) *didtypes.DIDDocument {
 		return &didtypes.DIDDocument{}
 	}
 	did := conc(didDict, id)
+	if len(list(a, "vms")) == 0 && len(list(a, "auth")) == 0 && len(list(a, "asrt")) == 0 {
+		return &didtypes.DIDDocument{Id: did} // the bare document a deactivation proof is made over
+	}
 	doc := &didtypes.DIDDocument{Contexts: &didtypes.JSONStringOrStrings{didtypes.ContextDIDV1}, Id: did}
 	mk := func(e M) *didtypes.VerificationMethod {
 		return &didtypes.VerificationMethod{
@@ -262,7 +285,8 @@ func absDoc(doc *didtypes.DIDDocument) (M, bool) {
 		}
 		asrt = append(asrt, name(r.GetVerificationMethodId()))
 	}
-	if doc.Contexts == nil || len(*doc.Contexts) != 1 || (*doc.Contexts)[0] != didtypes.ContextDIDV1 || doc.Controller != nil ||
+	bare := len(doc.VerificationMethods) == 0 && len(doc.Authentications) == 0 && len(doc.AssertionMethods) == 0 && doc.Contexts == nil
+	if (!bare && (doc.Contexts == nil || len(*doc.Contexts) != 1 || (*doc.Contexts)[0] != didtypes.ContextDIDV1)) || doc.Controller != nil ||
 		len(doc.KeyAgreements)+len(doc.CapabilityInvocations)+len(doc.CapabilityDelegations)+len(doc.Services) > 0 {
 		ok = false
 	}
